@@ -441,38 +441,58 @@ def find_c07(quick, seed):
 
 def find_c12(quick, seed):
     """Reachability (bounded): over seeds 0..N with default settings every opcode of the protocol's
-    table occurs in some output, and for P >= 4 framed and unframed pickles both occur."""
+    table occurs in some output, and for P >= 4 framed and unframed pickles both occur.  The rarest opcodes
+    (NEWOBJ_EX, BUILD) occur in roughly one default pickle in 1600, and WHICH seeds hit them moves with any
+    change of the entropy mapping, so "missing after 6000 seeds" is not yet a finding: the sweep is extended
+    to 40000 seeds for that protocol before anything is reported (miss probability for a 1-in-1600 opcode < 1e-10)."""
     import json as _json
     import pickletools
     ref = _json.load(open(os.path.join(VERIF, 'build', 'gen', 'ref_tables.json')))
-    n = 6000 if quick else 30000
+    steps = (6000, 40000) if quick else (30000, 60000)
+
+    import multiprocessing
     for P in range(6):
         for flags, extra in (('', set()), ('ext=1 buffer=1', {'EXT1', 'EXT2', 'EXT4', 'NEXT_BUFFER', 'READONLY_BUFFER'})):
-            jobs = ['P=%d seed=%d %s' % (P, sd, flags) for sd in range(n)]
-            seen, framed, unframed = set(), 0, 0
-            for j, line in run_jobs(jobs):
-                if not line.startswith('ok '):
-                    continue
-                data = bytes.fromhex(line[3:])
-                try:
-                    names = [o.name for o, a, p in pickletools.genops(data)]
-                except Exception:  # noqa: BLE001
-                    continue
-                seen.update(names)
-                if 'FRAME' in names:
-                    framed += 1
-                else:
-                    unframed += 1
             want = {r['py'] for r in ref if r['proto'] <= P} - {'EXT1', 'EXT2', 'EXT4', 'NEXT_BUFFER', 'READONLY_BUFFER', 'FRAME'}
             want |= {x for x in extra if [r for r in ref if r['py'] == x][0]['proto'] <= P}
             if P < 2:
                 want -= {'PROTO'}
-            missing = sorted(want - seen)
+            seen, framed, unframed, done = set(), 0, 0, 0
+            for n in steps:
+                chunks = [(P, flags, a, min(a + 2000, n)) for a in range(done, n, 2000)]
+                with multiprocessing.Pool(min(12, max(1, len(chunks)))) as pool:
+                    for s_, f_, u_ in pool.map(_c12_sweep, chunks):
+                        seen |= s_
+                        framed += f_
+                        unframed += u_
+                done = n
+                missing = sorted(want - seen)
+                if not missing and not (P >= 4 and (framed == 0 or unframed == 0)):
+                    break
             if missing:
-                return 'P=%d seeds 0..%d %s' % (P, n - 1, flags), 'histogram', 'C12 opcodes never produced for protocol %d in %d seeds: %s' % (P, n, missing)
+                return 'P=%d seeds 0..%d %s' % (P, done - 1, flags), 'histogram', 'C12 opcodes never produced for protocol %d in %d seeds: %s' % (P, done, missing)
             if P >= 4 and (framed == 0 or unframed == 0):
-                return 'P=%d seeds 0..%d' % (P, n - 1), 'histogram', 'C12 framed=%d unframed=%d' % (framed, unframed)
+                return 'P=%d seeds 0..%d' % (P, done - 1), 'histogram', 'C12 framed=%d unframed=%d' % (framed, unframed)
     return None
+
+
+def _c12_sweep(args):
+    import pickletools
+    P, flags, lo, hi = args
+    seen, framed, unframed = set(), 0, 0
+    for j, line in run_jobs(['P=%d seed=%d %s' % (P, sd, flags) for sd in range(lo, hi)]):
+        if not line.startswith('ok '):
+            continue
+        try:
+            names = [o.name for o, a, p in pickletools.genops(bytes.fromhex(line[3:]))]
+        except Exception:  # noqa: BLE001
+            continue
+        seen.update(names)
+        if 'FRAME' in names:
+            framed += 1
+        else:
+            unframed += 1
+    return seen, framed, unframed
 
 
 def find(prop, quick=True, seed=0, limit=None):
